@@ -417,3 +417,47 @@ func vh_control_dispatch() {
 	vassert(epA.ctrl == 1 && epB.ctrl == 0, "an error report reaches exactly the socket that sent the quoted packet")
 	vreach("control")
 }
+
+// C09 / C13: an interface stops accepting packets for a subnet once the subnet has been
+// removed ("currently assigned"), whichever position it had in the list, and keeps
+// accepting the subnets that remain.
+func vh_subnet_removed() {
+	s := VHStack()
+	np := &vhNetProto{}
+	VHAddProtocols(s, []NetworkProtocol{np}, nil)
+	link := &VHLink{Mtu: 1500}
+	nic := VHNIC(s, 1, link)
+	// 1-3 disjoint /24 subnets 10.<i+1>.0.0
+	ns := 1 + vnChoice("nsubnets", 3)
+	sns := make([]tcpip.Subnet, ns)
+	for i := range sns {
+		sn, err := tcpip.NewSubnet(tcpip.Address([]byte{10, byte(i + 1), 0, 0}), tcpip.AddressMask("\xff\xff\xff\x00"))
+		vassume(err == nil)
+		sns[i] = sn
+		nic.AddSubnet(vhNetP, sn)
+	}
+	rm := vnChoice("remove", ns)
+	nic.RemoveSubnet(sns[rm])
+	vassert(!vhHasSubnet(nic, sns[rm]), "a removed subnet is no longer listed")
+	host := vnU8("host")
+	for i := range sns {
+		dst := tcpip.Address([]byte{10, byte(i + 1), 0, host})
+		ref := nic.getRef(vhNetP, dst)
+		if i == rm {
+			vassert(ref == nil, "a packet for an address of a removed subnet is not processed")
+		} else {
+			vassert(ref != nil, "removing one subnet does not affect another")
+			vassert(vhHasSubnet(nic, sns[i]), "the remaining subnets are still listed")
+		}
+	}
+	vreach("removed")
+}
+
+func vhHasSubnet(n *NIC, sn tcpip.Subnet) bool {
+	for _, x := range n.subnets {
+		if x == sn {
+			return true
+		}
+	}
+	return false
+}
